@@ -82,16 +82,16 @@ func init() {
 		Level:       "fault_enumeration",
 		Workers:     16,
 		CaseTimeout: 180e9,
-		Rule: fmt.Sprintf("%d scenario variants (counter / list / document / map; 3 clients: create + two subscribers, or all three entering with subscribe-or-create plus a fourth client whose Create of the existing key must stay refused and must never yield a second datatype; pushes of 1-3 operations, a transaction, pull-only syncs). Phase 1 profiles the fault-free run and numbers every database command issued while serving each request, including those of the background snapshot goroutine. Phase 2 re-runs the scenario once per command index k and per fault kind: fail(k) = that command answers {ok:0}; sever(k) = the connection is closed before executing it and the server incarnation is dead from then on; sever-after(k) = it is executed, the reply is lost and the incarnation is dead; for sever kinds a new incarnation is started on the same store; the script continues and all clients retry to quiescence. Oracle: the faulted call returns (error or not) - no panic, no hang; every operation whose acknowledgement a client had applied is stored; store invariants of C06 hold after recovery (operation documents beyond the recorded end of log are reported); retries reach quiescence; every operation issued on a subscribed datatype is stored exactly once and all replicas, the server's rebuild and the replay of the stored log agree (i.e. the state is the one determined by the issued operations, as if no failure had happened); ",
+		Rule: fmt.Sprintf("%d scenario variants (counter / list / document / map; 3 clients: create + two subscribers, or all three entering with subscribe-or-create plus a fourth client whose Create of the existing key must stay refused and must never yield a second datatype; pushes of 1-3 operations, a transaction, pull-only syncs). Phase 1 profiles the fault-free run and numbers every database command issued while serving each request, including those of the background snapshot goroutine. Phase 2 re-runs the scenario once per command index k and per fault kind: fail(k) = that command answers {ok:0}; sever(k) = the connection is closed before executing it and the server incarnation is dead from then on; sever-after(k) = it is executed, the reply is lost and the incarnation is dead; for sever kinds a new incarnation is started on the same store; the script continues and all clients retry to quiescence. Process cases (quick: a sample of command indexes of one variant; thorough: every command index of two variants): the server is the repository's own binary running as a child process behind the grpc front, clients are SDK clients calling Client.Sync() over real grpc, and the server dies by SIGKILL when the stand-in sees command k (before executing it / after executing it with the reply lost); a new process starts on the same store (same ports) and everybody retries. Oracle: the faulted call returns (error or not) - no panic, no hang; a server process that ends by itself is a violation; every operation whose acknowledgement a client had applied is stored; store invariants of C06 hold after recovery (operation documents beyond the recorded end of log are reported); retries reach quiescence; every operation issued on a subscribed datatype is stored exactly once and all replicas, the server's rebuild and the replay of the stored log agree (i.e. the state is the one determined by the issued operations, as if no failure had happened); ",
 			len(c08Variants)) +
 			"non-trivial = the fault hit a write command (insert / update / delete / findAndModify) or fell between the two writes of one commit; distinct = (variant, command index, fault kind)",
 		Assumptions: []string{
-			"quick and thorough tiers run the server in-process: a dead incarnation is approximated by severing its database connections and abandoning its service object (the in-process lock registry survives, which a real restart would clear)",
+			"the enumerated in-process cases approximate a dead incarnation by severing its database connections and abandoning its service object; the process cases kill a real server process (SIGKILL) and start a new one",
 			"user operations are issued only on SUBSCRIBED datatypes, so that 'as if no failure had happened' is well defined for every entry mode (DESIGN.md §4 C08)",
 			"MongoDB is the in-memory stand-in; a failed command has no partial effect; insert / update are atomic per command",
 		},
 		Trusted:    []string{"fakemongo (fault plan, command log)", "fakemqtt", "harness transport (direct mode)"},
-		Cases:      func(t string) int { return tierN(t, 3, len(c08Variants)) * c08MaxCommands * len(c08Kinds) },
+		Cases:      func(t string) int { return c08InProcCases(t) + c08ProcCases(t) },
 		Floor:      func(t string) int { return tierN(t, 60, 150) },
 		Exhaustive: func(t string) bool { return true },
 		Run:        runC08,
@@ -243,7 +243,12 @@ func c08Execute(c *core.Case, variant, k int, kind string, log bool) (*c08run, s
 	return run, "", ""
 }
 
+func c08InProcCases(t string) int { return tierN(t, 3, len(c08Variants)) * c08MaxCommands * len(c08Kinds) }
+
 func runC08(c *core.Case) *core.Result {
+	if n := c08InProcCases(c.Tier); c.Index >= n {
+		return runC08Proc(c, c.Index-n)
+	}
 	i := c.Index
 	kind := c08Kinds[i%len(c08Kinds)]
 	i /= len(c08Kinds)
